@@ -60,11 +60,13 @@ struct Fault { int task; int kind; uint64_t idx; int64_t arg; };
 
 struct RunSpec {
 	uint64_t seed;          // run seed (derives every stream)
+	uint64_t index;         // position in the driver's enumeration (0 for replay files); enumerating generators use it
 	bool replay;            // true: decisions/faults below are authoritative
+	bool explicit_faults;   // seed mode with a fault list supplied by the generator: only these faults fire
 	Plan plan;
 	std::vector<Decision> decisions;
 	std::vector<Fault> faults;
-	RunSpec() : seed(0), replay(false) {}
+	RunSpec() : seed(0), index(0), replay(false), explicit_faults(false) {}
 };
 
 // ---------------------------------------------------------------- result
